@@ -399,6 +399,11 @@ def _run_sparse(case, ctx, pym, make_pencil, label):
         if not _shift_admissible(lam, sig):
             ctx.count("steps_skipped_shift_too_close_to_an_eigenvalue")
             continue
+        if state["othermode"] and not np.all(np.real(lam) > 0):
+            # (the mode was chosen for the positive definite pencil of the first step; ARPACK's buckling/Cayley transforms are
+            # not defined for the indefinite one of this step - scipy itself does not converge on it)
+            ctx.count("steps_skipped_mode_needs_positive_definite_pencil")
+            continue
         mats = [A] + ([B] if B is not None else [])
         info = {"sparse": True, "hermitian": p["hermitian"], "realsym": p["realsym"], "lam": lam, "cond": cond,
                 "nBinv": nBi, "nmodes": k, "sigma": sig}
